@@ -1,15 +1,19 @@
 package vegeta_test
 
 import (
+	"errors"
 	"fmt"
 	"io"
+	"net"
 	"net/http"
+	"os"
 	"runtime"
 	"sort"
 	"strconv"
 	"strings"
 	"sync"
 	"sync/atomic"
+	"syscall"
 	"testing"
 	"time"
 
@@ -33,17 +37,39 @@ type c05Case struct {
 	Procs       int
 	TimeoutMS   int // > 0: client timeout; every HangEvery-th request hangs until the timeout cancels it
 	HangEvery   int
+	ErrEvery    int    `json:",omitempty"` // > 0: the first round trip of every ErrEvery-th request fails after a short while ...
+	ErrKind     string `json:",omitempty"` // ... with this kind of error (eof | reset | pipe | idle | unexpected)
+	OwnSeqHdr   bool   `json:",omitempty"` // the targets themselves carry X-Vegeta-Seq / X-Vegeta-Attack headers (replayed captures)
 }
 
 type c05Transport struct {
 	mode      string
 	hangEvery int
+	errEvery  int
+	errKind   string
 	inflight  int64
 	overlaps  int64
 	n         int64
 	mu        sync.Mutex
 	entry     map[uint64]time.Time
 	exit      map[uint64]time.Time
+	took      map[uint64]time.Duration // total time the transport spent on the hit (all its round trips)
+	trips     map[uint64]int
+}
+
+func c05Err(kind string) error {
+	switch kind {
+	case "eof":
+		return io.EOF
+	case "unexpected":
+		return fmt.Errorf("transport connection broken: %w", io.ErrUnexpectedEOF)
+	case "reset":
+		return &net.OpError{Op: "read", Net: "tcp", Err: os.NewSyscallError("read", syscall.ECONNRESET)}
+	case "pipe":
+		return &net.OpError{Op: "write", Net: "tcp", Err: os.NewSyscallError("write", syscall.EPIPE)}
+	default:
+		return errors.New("http: server closed idle connection")
+	}
 }
 
 func (t *c05Transport) RoundTrip(req *http.Request) (*http.Response, error) {
@@ -53,8 +79,15 @@ func (t *c05Transport) RoundTrip(req *http.Request) (*http.Response, error) {
 	}
 	n := atomic.AddInt64(&t.n, 1)
 	seq, _ := strconv.ParseUint(req.Header.Get("X-Vegeta-Seq"), 10, 64)
+	t.mu.Lock()
+	t.trips[seq]++
+	first := t.trips[seq] == 1
+	t.mu.Unlock()
 	var rerr error
 	switch {
+	case t.errEvery > 0 && first && n%int64(t.errEvery) == 0:
+		time.Sleep(400 * time.Microsecond)
+		rerr = c05Err(t.errKind)
 	case t.hangEvery > 0 && n%int64(t.hangEvery) == 0:
 		<-req.Context().Done() // the client timeout cancels the request
 		time.Sleep(2 * time.Millisecond)
@@ -67,7 +100,11 @@ func (t *c05Transport) RoundTrip(req *http.Request) (*http.Response, error) {
 	atomic.AddInt64(&t.inflight, -1)
 	exit := time.Now()
 	t.mu.Lock()
-	t.entry[seq], t.exit[seq] = entry, exit
+	if first {
+		t.entry[seq] = entry
+	}
+	t.exit[seq] = exit
+	t.took[seq] += exit.Sub(entry)
 	t.mu.Unlock()
 	if rerr != nil {
 		return nil, rerr
@@ -85,7 +122,8 @@ func evalC05(c c05Case) (overlaps int64, err error) {
 	if c.Procs > 0 {
 		defer runtime.GOMAXPROCS(runtime.GOMAXPROCS(c.Procs))
 	}
-	tr := &c05Transport{mode: c.Transport, hangEvery: c.HangEvery, entry: map[uint64]time.Time{}, exit: map[uint64]time.Time{}}
+	tr := &c05Transport{mode: c.Transport, hangEvery: c.HangEvery, entry: map[uint64]time.Time{}, exit: map[uint64]time.Time{},
+		errEvery: c.ErrEvery, errKind: c.ErrKind, took: map[uint64]time.Duration{}, trips: map[uint64]int{}}
 	client := &http.Client{Transport: tr}
 	if c.TimeoutMS > 0 {
 		client.Timeout = time.Duration(c.TimeoutMS) * time.Millisecond
@@ -93,6 +131,9 @@ func evalC05(c c05Case) (overlaps int64, err error) {
 		tr.hangEvery = 0
 	}
 	tgt := vegeta.Target{Method: "GET", URL: "http://c05.test/"}
+	if c.OwnSeqHdr {
+		tgt.Header = http.Header{"X-Vegeta-Seq": []string{"3"}, "X-Vegeta-Attack": []string{"earlier-run"}}
+	}
 	var targeter vegeta.Targeter = vegeta.NewStaticTargeter(tgt)
 	if c.TargetYield {
 		targeter = func(t *vegeta.Target) error { runtime.Gosched(); *t = tgt; return nil }
@@ -119,6 +160,12 @@ func evalC05(c c05Case) (overlaps int64, err error) {
 	}
 	overlaps = atomic.LoadInt64(&tr.overlaps)
 	what := fmt.Sprintf("%d workers, %d hits, transport %s, GOMAXPROCS %d", c.MaxWorkers, c.Hits, c.Transport, c.Procs)
+	if c.ErrEvery > 0 {
+		what += fmt.Sprintf(", every %d-th request failing with a %q error", c.ErrEvery, c.ErrKind)
+	}
+	if c.OwnSeqHdr {
+		what += ", targets carrying X-Vegeta-Seq/X-Vegeta-Attack headers of their own"
+	}
 	if len(results) != c.Hits {
 		return overlaps, fmt.Errorf("%s: %d results", what, len(results))
 	}
@@ -137,6 +184,7 @@ func evalC05(c c05Case) (overlaps int64, err error) {
 		tr.mu.Lock()
 		entry, ok := tr.entry[r.Seq]
 		exit := tr.exit[r.Seq]
+		took, trips := tr.took[r.Seq], tr.trips[r.Seq]
 		tr.mu.Unlock()
 		if !ok {
 			return overlaps, fmt.Errorf("%s: seq %d never reached the transport", what, r.Seq)
@@ -147,8 +195,8 @@ func evalC05(c c05Case) (overlaps int64, err error) {
 		if r.Latency < 0 {
 			return overlaps, fmt.Errorf("%s: seq %d has negative latency %s", what, r.Seq, r.Latency)
 		}
-		if took := exit.Sub(entry); r.Latency < took {
-			return overlaps, fmt.Errorf("%s: seq %d has latency %s, less than the %s the transport took", what, r.Seq, r.Latency, took)
+		if r.Latency < took {
+			return overlaps, fmt.Errorf("%s: seq %d has latency %s, less than the %s the transport took (%d round trip(s))", what, r.Seq, r.Latency, took, trips)
 		}
 		if !r.End().Equal(r.Timestamp.Add(r.Latency)) {
 			return overlaps, fmt.Errorf("%s: End() != Timestamp + Latency for seq %d", what, r.Seq)
@@ -184,6 +232,14 @@ func TestC05Order(t *testing.T) {
 				c.MaxWorkers = 8
 			}
 		}
+		if rapid.IntRange(0, 2).Draw(t, "errs") == 0 {
+			c.ErrEvery = rapid.SampledFrom([]int{3, 50, 500}).Draw(t, "errevery")
+			c.ErrKind = rapid.SampledFrom([]string{"eof", "unexpected", "reset", "pipe", "idle"}).Draw(t, "errkind")
+			if c.Hits > 20000 {
+				c.Hits = 20000
+			}
+		}
+		c.OwnSeqHdr = rapid.IntRange(0, 2).Draw(t, "ownhdr") == 0
 		if c.Transport == "sleep" && c.Hits > 20000 {
 			c.Hits = 20000
 		}
@@ -198,7 +254,7 @@ func TestC05Order(t *testing.T) {
 		}
 		overlaps, err := evalC05(c)
 		nt := overlaps >= 1000
-		vh.Case("C05.order", fmt.Sprintf("%+v", c), nt, "transport:"+c.Transport, fmt.Sprintf("timeouts:%v", c.TimeoutMS > 0))
+		vh.Case("C05.order", fmt.Sprintf("%+v", c), nt, "transport:"+c.Transport, fmt.Sprintf("timeouts:%v", c.TimeoutMS > 0), fmt.Sprintf("transport-errors:%v", c.ErrEvery > 0), fmt.Sprintf("own-seq-header:%v", c.OwnSeqHdr))
 		vh.Count("C05.order", "hits", c.Hits)
 		vh.Count("C05.order", "overlapping_transport_entries", int(overlaps))
 		vh.Sample("C05.order", nt, c)
